@@ -54,6 +54,13 @@ pub fn core_spaces(tier: &str, seed: i64, heavy: bool) -> Vec<Space> {
             v.push(Space::all(Universe::UE { extras: 1, capturer_files: Some(vec![1, 4, 6]), slider_only: true }));
         }
         v.push(Space::all(Universe::UP));
+        v.push(Space::all(Universe::UEA));
+        v.push(Space::all(Universe::UCK { extras: 0 }));
+        if heavy {
+            v.push(Space::slice(Universe::UCK { extras: 1 }, 4, off));
+        } else {
+            v.push(Space::all(Universe::UCK { extras: 1 }));
+        }
         if heavy {
             v.push(Space::slice(Universe::U4 { a: code(P, true), b: code(P, false), files: Some((3, 4)) }, 4, off));
         } else {
@@ -82,6 +89,9 @@ pub fn core_spaces(tier: &str, seed: i64, heavy: bool) -> Vec<Space> {
         v.push(Space::all(Universe::UE { extras: 0, capturer_files: None, slider_only: false }));
         v.push(Space::all(Universe::UE { extras: 1, capturer_files: Some(vec![0, 1, 3, 4, 6, 7]), slider_only: false }));
         v.push(Space::all(Universe::UP));
+        v.push(Space::all(Universe::UEA));
+        v.push(Space::all(Universe::UCK { extras: 0 }));
+        v.push(Space::all(Universe::UCK { extras: 1 }));
         for (a, b) in [(code(P, true), code(P, false)), (code(Q, true), code(R, false)), (code(R, true), code(B, false)), (code(P, true), code(N, false))] {
             if heavy {
                 v.push(Space::all(Universe::U4 { a, b, files: Some((2, 5)) }));
